@@ -460,6 +460,13 @@ class Interp:
     def __init__(self, source, inp):
         self.tree = ast.parse(source)
         self.funcs = {n.name: n for n in self.tree.body if isinstance(n, ast.FunctionDef)}
+        self.globals = {}
+        for n in self.tree.body:            # module-level constants (literal tuples / numbers / strings)
+            if isinstance(n, ast.Assign) and len(n.targets) == 1 and isinstance(n.targets[0], ast.Name):
+                try:
+                    self.globals[n.targets[0].id] = ast.literal_eval(n.value)
+                except Exception:
+                    pass
         self.inp = inp
         self.nodes = set()
 
@@ -554,6 +561,8 @@ class Interp:
                 return env[e.id]
             if e.id in ("ValueError", "TypeError"):
                 return e.id
+            if e.id in self.globals:
+                return self.globals[e.id]
             raise Unsupported("name %s" % e.id)
         if isinstance(e, ast.JoinedStr):
             out = SStr([])
